@@ -809,6 +809,7 @@ int KSI_TreeLeafHandle_getAggregationChain(const KSI_TreeLeafHandle *handle, KSI
 		KSI_pushError(handle->pBuilder->ctx, res, NULL);
 		goto cleanup;
 	}
+	links = NULL;
 
 	/* Set the input hash. */
 	{
@@ -846,6 +847,7 @@ int KSI_TreeLeafHandle_getAggregationChain(const KSI_TreeLeafHandle *handle, KSI
 cleanup:
 
 	KSI_Integer_free(algoId);
+	KSI_HashChainLinkList_free(links);
 	KSI_AggregationHashChain_free(tmp);
 
 	return res;
